@@ -183,6 +183,10 @@ type scenario struct {
 	SubDepth    int      // subdomains: labels in front of the configured domain in the envelope sender
 	SubSpelling string   // subdomains: as-configured / differs-from-config (A-labels or upper case)
 	FailCount   int      // scripted temporary failures before the next hop accepts (0 = 1)
+	// Past of the key directory (hist_test.go), drawn from its own stream: earlier
+	// lives of the signer on the same key_path with other newkey_algo values,
+	// leftover files. nil = fresh / shared directory as before.
+	Hist *keyHistory
 	// Very large header / body (big_test.go)
 	Big        *bigPlan
 	BigBodyLen int // quick-tier big body: exact body size in octets (0 = body as generated)
@@ -210,6 +214,9 @@ func (s scenario) shape(m *message) string {
 	}
 	if s.FailCount > 1 {
 		cfg += "/two-failures"
+	}
+	if s.Hist != nil {
+		cfg += "/hist=" + s.Hist.summary()
 	}
 	return fmt.Sprintf("%s/%s/%s/%s/eai=%v/%s/%s/%s/%s/fault=%s/%s/%s", s.Algo, s.HC, s.BC, s.Fields, s.EAI, s.Domain.Kind, s.Variant, s.FailStage, s.Target, s.Fault, cfg, strings.Join(fs, ","))
 }
@@ -569,6 +576,7 @@ func (h *harness) runCase(c *rep.Case, i int) {
 		sc.Latin1Header = false
 	}
 	extendScenario(&sc, prng.New(r.Seed(), uint64(i), "c08cfg"), i, sizeCase)
+	drawHistory(&sc, prng.New(r.Seed(), uint64(i), "c08hist"), i)
 	qb := prng.New(r.Seed(), uint64(i), "c08big")
 	if sc.Big = bigPlanFor(i, qb); sc.Big != nil {
 		// always a variant that re-reads the header from the spool
@@ -995,6 +1003,7 @@ func (h *harness) runCase(c *rep.Case, i int) {
 	if sc.FailCount > 1 {
 		r.Count("deliveries_after_two_scripted_failures", 1)
 	}
+	h.countHistory(&sc)
 	if sc.BigBodyLen > 0 {
 		r.Count("big_body_payloads", 1)
 		if sc.BigBodyLen > mib {
